@@ -464,7 +464,22 @@ func runsOnSuccess(in ssa.Instruction) bool {
 			}
 		}
 		if mayNil && !instrDominates(in, ret) {
-			ok = false
+			// "if err != nil { return err }": the value is known to be non-nil on this return
+			last := ret.Results[len(ret.Results)-1]
+			paths, okp := reachingLitsOwn(fn, nil, ret)
+			known := okp && len(paths) > 0
+			for _, p := range paths {
+				found := false
+				for _, l := range p {
+					if isNilCheckOf(l, stripIface(loadSource(last)), false) || isNilCheckOf(l, last, false) {
+						found = true
+					}
+				}
+				known = known && found
+			}
+			if !known {
+				ok = false
+			}
 		}
 	})
 	return ok
